@@ -98,18 +98,30 @@ Proof.
   induction l as [|x l IH]; intro H; constructor; [apply H; left; reflexivity|apply IH; intros; apply H; right; assumption].
 Qed.
 
-Definition col_rel (o : op) (n n' : name) (r r' : row) : Prop :=
-  exists v v', lookup n r = Some v /\ lookup n' r' = Some v' /\ convd o n v = Some v'.
+Ltac case_if H :=
+  match type of H with
+  | (if ?b then _ else _) = _ => let E := fresh "Eg" in destruct b eqn:E; [|discriminate]
+  end.
+
+Definition col_rel (o : op) (t : table) (n n' : name) (r r' : row) : Prop :=
+  exists v v', lookup n r = Some v /\ lookup n' r' = Some v' /\ convd o t n v = Some v'.
+
+Lemma cn_eff t n c : cn (eff t n c) = cn c.
+Proof. unfold eff. destruct (memb n (pk t)); reflexivity. Qed.
 
 (* ---- the main single-statement theorem ---- *)
 Theorem alter_preserves_retained o t t' n n' :
   inv t -> alter o t = Some t' -> In n (names t) -> retained o n = Some n' ->
-  Forall2 (col_rel o n n') (rows t) (rows t').
+  Forall2 (col_rel o t n n') (rows t) (rows t').
 Proof.
   intros Hinv Ha Hn Hr. unfold inv in Hinv. rewrite Forall_forall in Hinv.
   assert (Hl : forall r, In r (rows t) -> exists v, lookup n r = Some v).
   { intros r Hr0. apply lookup_in. apply (Hinv r Hr0). exact Hn. }
-  destruct o as [c fill p|d|m c' p|a b|tn'|]; cbn in Ha, Hr.
+  assert (Hsame : rows t' = rows t -> n' = n -> (forall v, convd o t n v = Some v) ->
+                  Forall2 (col_rel o t n n') (rows t) (rows t')).
+  { intros E1 E2 E3. rewrite E1, E2. apply Forall2_refl_in. intros r Hr0.
+    destruct (Hl r Hr0) as [v Hv]. exists v, v. auto. }
+  destruct o as [c fill p|d|m c0 p|a b|tn'| |ks|]; cbn [alter retained] in Ha, Hr.
   - (* add *)
     destruct (has (cn c) (cols t)) eqn:Hh; [discriminate|]. destruct (conv c fill) as [v0|]; [|discriminate].
     destruct (insert_col p c (cols t)); [|discriminate]. injection Ha as <-. injection Hr as <-. cbn [rows].
@@ -117,22 +129,21 @@ Proof.
     cbn. apply has_false in Hh. assert (E : cn c =? n = false) by (apply N.eqb_neq; intro; subst; exact (Hh Hn)).
     rewrite E. exact Hv.
   - (* drop *)
-    destruct (has d (cols t) && _); [|discriminate]. injection Ha as <-. cbn [rows].
+    case_if Ha. injection Ha as <-. cbn [rows].
     destruct (N.eqb_spec n d) as [->|Hnd]; [discriminate|]. injection Hr as <-.
     apply Forall2_map_r. intros r Hr0. destruct (Hl r Hr0) as [v Hv]. exists v, v. split; [exact Hv|split; [|reflexivity]].
     rewrite lookup_remove_neq; assumption.
   - (* modify *)
+    cbv zeta in Ha. rewrite <- (cn_eff t m c0) in Hr. set (c' := eff t m c0) in *.
     destruct (has m (cols t) && _) eqn:Hc; [|discriminate]. apply andb_prop in Hc. destruct Hc as [Hm Hc'].
     destruct (mapM (modify_row m c') (rows t)) as [rs|] eqn:Hmm; [|discriminate].
-    assert (Hrows : rows t' = rs).
-    { destruct p; try (injection Ha as <-; reflexivity);
-        destruct (insert_col _ c' (remove_col m (cols t))); try discriminate; injection Ha as <-; reflexivity. }
-    rewrite Hrows. apply mapM_Forall2 in Hmm.
+    destruct (new_cols m c' p (cols t)) as [cs|]; [|discriminate]. injection Ha as <-. cbn [rows].
+    apply mapM_Forall2 in Hmm.
     assert (Hneq : n <> m -> n <> cn c').
     { intros Hnm E. apply orb_prop in Hc'. destruct Hc' as [H|H].
       - apply N.eqb_eq in H. congruence.
       - apply negb_true_iff, has_false in H. subst. exact (H Hn). }
-    clear Ha Hrows. induction Hmm as [|r r' l l' Hrr' Hmm IH]; constructor.
+    clear Hsame. induction Hmm as [|r r' l l' Hrr' Hmm IH]; constructor.
     + unfold modify_row in Hrr'. destruct (lookup m r) as [v|] eqn:Hv; [|discriminate].
       destruct (conv c' v) as [v'|] eqn:Hcv; [|discriminate]. injection Hrr' as <-.
       destruct (N.eqb_spec n m) as [->|Hnm].
@@ -151,33 +162,33 @@ Proof.
     destruct (N.eqb_spec n a) as [->|Hna]; injection Hr as <-; (split; [exact Hv|split; [|reflexivity]]).
     + rewrite lookup_rename_same; assumption.
     + rewrite lookup_rename_other; [exact Hv|exact Hna|intro; subst; exact (Hhb Hn)].
-  - (* rename table *)
-    injection Ha as <-. injection Hr as <-. cbn [rows]. apply Forall2_refl_in. intros r Hr0.
-    destruct (Hl r Hr0) as [v Hv]. exists v, v. auto.
-  - injection Ha as <-. injection Hr as <-. apply Forall2_refl_in. intros r Hr0.
-    destruct (Hl r Hr0) as [v Hv]. exists v, v. auto.
+  - injection Ha as <-. injection Hr as <-. apply Hsame; reflexivity.
+  - injection Ha as <-. injection Hr as <-. apply Hsame; reflexivity.
+  - (* add primary key *)
+    destruct (pk t); [|discriminate]. destruct ks as [|k ks]; [discriminate|].
+    case_if Ha. injection Ha as <-. injection Hr as <-. apply Hsame; reflexivity.
+  - destruct (pk t); [discriminate|]. injection Ha as <-. injection Hr as <-. apply Hsame; reflexivity.
 Qed.
-
-Theorem failed_alter_no_effect o t : alter o t = None -> exec o t = t.
-Proof. intro H. unfold exec. rewrite H. reflexivity. Qed.
 
 Lemma F2_length {A B} (P : A -> B -> Prop) l l' : Forall2 P l l' -> length l = length l'.
 Proof. induction 1; cbn; congruence. Qed.
 
 Theorem alter_keeps_row_count o t t' : alter o t = Some t' -> length (rows t') = length (rows t).
 Proof.
-  destruct o as [c fill p|d|m c' p|a b|tn'|]; cbn; intro Ha.
+  destruct o as [c fill p|d|m c0 p|a b|tn'| |ks|]; cbn [alter]; intro Ha.
   - destruct (has (cn c) (cols t)); [discriminate|]. destruct (conv c fill); [|discriminate].
     destruct (insert_col p c (cols t)); [|discriminate]. injection Ha as <-. cbn. apply map_length.
-  - destruct (has d (cols t) && _); [|discriminate]. injection Ha as <-. cbn. apply map_length.
-  - destruct (has m (cols t) && _); [|discriminate].
-    destruct (mapM (modify_row m c') (rows t)) as [rs|] eqn:Hmm; [|discriminate].
+  - case_if Ha. injection Ha as <-. cbn. apply map_length.
+  - cbv zeta in Ha. destruct (has m (cols t) && _); [|discriminate].
+    destruct (mapM (modify_row m (eff t m c0)) (rows t)) as [rs|] eqn:Hmm; [|discriminate].
     apply mapM_Forall2 in Hmm. pose proof (F2_length _ _ _ Hmm) as HL.
-    destruct p; try (injection Ha as <-; cbn; lia);
-      destruct (insert_col _ c' (remove_col m (cols t))); try discriminate; injection Ha as <-; cbn; lia.
+    destruct (new_cols m (eff t m c0) p (cols t)); [|discriminate]. injection Ha as <-. cbn. lia.
   - destruct (has a (cols t) && negb (has b (cols t))); [|discriminate]. injection Ha as <-. cbn. apply map_length.
   - injection Ha as <-. reflexivity.
   - injection Ha as <-. reflexivity.
+  - destruct (pk t); [|discriminate]. destruct ks; [discriminate|]. case_if Ha.
+    injection Ha as <-. reflexivity.
+  - destruct (pk t); [discriminate|]. injection Ha as <-. reflexivity.
 Qed.
 
 (* ---- the invariant is preserved, hence sequences ---- *)
@@ -233,49 +244,143 @@ Proof.
   - destruct H as [[[H|H] H2]|[H1 [H|H]]]; subst; auto; try congruence.
 Qed.
 
+Lemma new_cols_names m c' p cs l n :
+  new_cols m c' p cs = Some l -> In m (map cn cs) ->
+  (In n (map cn l) <-> n = cn c' \/ (In n (map cn cs) /\ n <> m)).
+Proof.
+  intros H Hm. destruct p; cbn [new_cols] in H;
+    try (rewrite (insert_col_names _ c' _ l n H), remove_col_names; (intuition (subst; auto; congruence))).
+  injection H as <-. rewrite replace_col_names. (intuition (subst; auto; congruence)).
+Qed.
+
+Lemma setnn_names (f : col -> bool) cs : map cn (map (fun c => if f c then mkc (cn c) (cty c) false else c) cs) = map cn cs.
+Proof. induction cs as [|c cs IH]; [reflexivity|]. cbn. rewrite IH. destruct (f c); reflexivity. Qed.
+
 Theorem alter_preserves_inv o t t' : inv t -> alter o t = Some t' -> inv t'.
 Proof.
   unfold inv. intros Hinv Ha. rewrite Forall_forall in *.
-  destruct o as [c fill p|d|m c' p|a b|tn'|]; cbn in Ha.
+  destruct o as [c fill p|d|m c0 p|a b|tn'| |ks|]; cbn [alter] in Ha.
   - destruct (has (cn c) (cols t)); [discriminate|]. destruct (conv c fill) as [v0|]; [|discriminate].
     destruct (insert_col p c (cols t)) as [cs|] eqn:Hi; [|discriminate]. injection Ha as <-. unfold names in *; cbn [rows cols].
     intros r Hr n. apply in_map_iff in Hr. destruct Hr as [r0 [<- Hr0]]. cbn [map fst].
     rewrite (insert_col_names p c (cols t) cs n Hi). cbn. rewrite (Hinv r0 Hr0 n). unfold names. split; intros [E|E]; auto.
-  - destruct (has d (cols t) && _); [|discriminate]. injection Ha as <-. unfold names in *; cbn [rows cols].
+  - case_if Ha. injection Ha as <-. unfold names in *; cbn [rows cols].
     intros r Hr n. apply in_map_iff in Hr. destruct Hr as [r0 [<- Hr0]].
     rewrite keys_remove, remove_col_names. rewrite (Hinv r0 Hr0 n). reflexivity.
-  - destruct (has m (cols t) && _) eqn:Hc; [|discriminate]. apply andb_prop in Hc. destruct Hc as [Hm _].
+  - cbv zeta in Ha. set (c' := eff t m c0) in *.
+    destruct (has m (cols t) && _) eqn:Hc; [|discriminate]. apply andb_prop in Hc. destruct Hc as [Hm _].
     apply has_in in Hm.
     destruct (mapM (modify_row m c') (rows t)) as [rs|] eqn:Hmm; [|discriminate]. apply mapM_Forall2 in Hmm.
-    assert (Hrs : forall r', In r' rs -> forall n, In n (map fst r') <-> n = cn c' \/ (In n (names t) /\ n <> m)).
-    { clear Ha. induction Hmm as [|r r' l l' Hrr' Hmm IH]; [intros ? []|]. intros r0 [<-|Hr0] n.
+    destruct (new_cols m c' p (cols t)) as [cs|] eqn:Hnc; [|discriminate]. injection Ha as <-. unfold names in *; cbn [rows cols].
+    assert (Hrs : forall r', In r' rs -> forall n, In n (map fst r') <-> n = cn c' \/ (In n (map cn (cols t)) /\ n <> m)).
+    { clear Hnc. induction Hmm as [|r r' l l' Hrr' Hmm IH]; [intros ? []|]. intros r0 [<-|Hr0] n.
       - unfold modify_row in Hrr'. destruct (lookup m r); [|discriminate]. destruct (conv c' v); [|discriminate].
         injection Hrr' as <-. cbn [map fst]. cbn. rewrite keys_remove. rewrite (Hinv r (or_introl eq_refl) n). split; intros [E|E]; auto.
       - apply IH; [intros; apply Hinv; right; assumption|exact Hr0]. }
-    assert (Hnames : forall n, In n (names t') <-> n = cn c' \/ (In n (names t) /\ n <> m)).
-    { intro n. destruct p; try (injection Ha as <-; unfold names; cbn [cols]; rewrite replace_col_names; unfold names in Hm; (intuition (subst; auto; congruence)));
-        destruct (insert_col _ c' (remove_col m (cols t))) as [cs|] eqn:Hi; try discriminate; injection Ha as <-;
-        unfold names; cbn [cols]; rewrite (insert_col_names _ c' _ cs n Hi), remove_col_names; (intuition (subst; auto; congruence)). }
-    assert (Hrows : rows t' = rs).
-    { destruct p; try (injection Ha as <-; reflexivity);
-        destruct (insert_col _ c' (remove_col m (cols t))); try discriminate; injection Ha as <-; reflexivity. }
-    rewrite Hrows. intros r Hr n. rewrite (Hrs r Hr n), Hnames. reflexivity.
+    intros r Hr n. rewrite (Hrs r Hr n). rewrite (new_cols_names m c' p (cols t) cs n Hnc Hm). reflexivity.
   - destruct (has a (cols t) && negb (has b (cols t))); [|discriminate]. injection Ha as <-. unfold names in *; cbn [rows cols].
     intros r Hr n. apply in_map_iff in Hr. destruct Hr as [r0 [<- Hr0]].
     rewrite keys_rename, rename_col_names. rewrite !(Hinv r0 Hr0). reflexivity.
   - injection Ha as <-. exact Hinv.
   - injection Ha as <-. exact Hinv.
+  - destruct (pk t); [|discriminate]. destruct ks as [|k ks]; [discriminate|]. case_if Ha.
+    injection Ha as <-. unfold names in *; cbn [rows cols]. rewrite setnn_names. exact Hinv.
+  - destruct (pk t); [discriminate|]. injection Ha as <-. exact Hinv.
+Qed.
+
+(* ---- the corrupting failure keeps keys, row count and every other column ---- *)
+Lemma keys_set_key n v r : map fst (set_key n v r) = map fst r.
+Proof.
+  induction r as [|[k w] r IH]; [reflexivity|]. unfold set_key in *. cbn [map fst]. rewrite IH.
+  destruct (N.eqb_spec k n); cbn [fst]; congruence.
+Qed.
+
+Lemma set_key_cons n v k w r : set_key n v ((k, w) :: r) = (if k =? n then (n, v) else (k, w)) :: set_key n v r.
+Proof. reflexivity. Qed.
+
+Lemma lookup_set_key_other m n v r : m <> n -> lookup m (set_key n v r) = lookup m r.
+Proof.
+  intro H. induction r as [|[k w] r IH]; [reflexivity|]. rewrite set_key_cons.
+  destruct (N.eqb_spec k n) as [->|Hk]; cbn [lookup].
+  - assert (E : n =? m = false) by (apply N.eqb_neq; congruence). rewrite E. exact IH.
+  - rewrite IH. reflexivity.
+Qed.
+
+Lemma corrupt_rows_spec n b old new rs :
+  length (corrupt_rows n b old new rs) = length rs /\
+  Forall2 (fun r r' => map fst r' = map fst r /\ forall m, m <> n -> lookup m r' = lookup m r) rs (corrupt_rows n b old new rs).
+Proof.
+  assert (Hrefl : forall l : list row,
+            Forall2 (fun r r' => map fst r' = map fst r /\ forall m, m <> n -> lookup m r' = lookup m r) l l).
+  { induction l; constructor; auto. }
+  induction rs as [|r rs [IH1 IH2]]; [split; [reflexivity|constructor]|].
+  cbn [corrupt_rows]. destruct (lookup n r) as [[|z|s|u sc|tm]|]; try (split; [reflexivity|apply Hrefl]).
+  - destruct b; [|split; [reflexivity|apply Hrefl]]. cbn [length]. split; [congruence|]. constructor; auto.
+  - destruct (index_of_b s new 0) as [j|]; [|split; [reflexivity|apply Hrefl]]. cbn [length]. split; [congruence|].
+    constructor; [|exact IH2]. split; [apply keys_set_key|]. intros m Hm. apply lookup_set_key_other. exact Hm.
+Qed.
+
+Lemma corrupt_cases o t :
+  corrupt o t = t \/
+  exists n c0 p b old new, o = OModify n c0 p /\
+    corrupt o t = mkt (tn t) (cols t) (pk t) (corrupt_rows n b old new (rows t)).
+Proof.
+  destruct o as [c fill p|d|m c0 p|a b|tn'| |ks|]; try (left; reflexivity).
+  cbn [corrupt]. cbv zeta. destruct (has m (cols t) && _); [|left; reflexivity].
+  destruct (find_col m (cols t)) as [oc|]; [|left; reflexivity].
+  destruct (new_cols m (eff t m c0) p (cols t)) as [cs|]; [|left; reflexivity].
+  destruct (cty oc); try (left; reflexivity). destruct (cty (eff t m c0)); try (left; reflexivity).
+  destruct (_ || _ || _); [|left; reflexivity].
+  right. do 6 eexists. split; reflexivity.
+Qed.
+
+Theorem corrupt_preserves_inv o t : inv t -> inv (corrupt o t).
+Proof.
+  intro H. destruct (corrupt_cases o t) as [->|[n [c0 [p [b [old [new [_ ->]]]]]]]]; [exact H|].
+  unfold inv in *. unfold names in *. cbn [rows cols].
+  destruct (corrupt_rows_spec n b old new (rows t)) as [_ HF].
+  induction HF as [|r r' l l' [Hk _] HF IH]; [constructor|].
+  inversion H as [|? ? Hr Hl]; subst. constructor; [|apply IH; exact Hl].
+  intro m. rewrite Hk. apply Hr.
 Qed.
 
 Theorem exec_preserves_inv o t : inv t -> inv (exec o t).
-Proof. intro H. unfold exec. destruct (alter o t) eqn:E; [exact (alter_preserves_inv o t t0 H E)|exact H]. Qed.
+Proof.
+  intro H. unfold exec. destruct (alter o t) eqn:E; [exact (alter_preserves_inv o t t0 H E)|exact (corrupt_preserves_inv o t H)].
+Qed.
+
+Lemma corrupt_row_count o t : length (rows (corrupt o t)) = length (rows t).
+Proof.
+  destruct (corrupt_cases o t) as [->|[n [c0 [p [b [old [new [_ ->]]]]]]]]; [reflexivity|].
+  cbn [rows]. apply corrupt_rows_spec.
+Qed.
 
 Theorem exec_seq_inv_rows os : forall t, inv t -> inv (exec_seq os t) /\ length (rows (exec_seq os t)) = length (rows t).
 Proof.
   induction os as [|o os IH]; intros t H; [cbn; auto|].
   change (exec_seq (o :: os) t) with (exec_seq os (exec o t)).
   destruct (IH (exec o t) (exec_preserves_inv o t H)) as [H1 H2]. split; [exact H1|]. rewrite H2.
-  unfold exec. destruct (alter o t) eqn:E; [apply (alter_keeps_row_count o t t0 E)|reflexivity].
+  unfold exec. destruct (alter o t) eqn:E; [apply (alter_keeps_row_count o t t0 E)|apply corrupt_row_count].
+Qed.
+
+(* a failed statement has no effect -- except the ENUM redefinition above *)
+Definition not_enum_modify (o : op) (t : table) : bool :=
+  match o with
+  | OModify n _ _ => match find_col n (cols t) with
+                     | Some oc => match cty oc with TEnum _ => false | _ => true end
+                     | None => true
+                     end
+  | _ => true
+  end.
+
+Theorem failed_alter_no_effect o t : not_enum_modify o t = true -> alter o t = None -> exec o t = t.
+Proof.
+  intros Hg H. unfold exec. rewrite H.
+  destruct o as [c fill p|d|m c0 p|a b|tn'| |ks|]; try reflexivity.
+  cbn [corrupt not_enum_modify] in *. cbv zeta. destruct (has m (cols t) && _); [|reflexivity].
+  destruct (find_col m (cols t)) as [oc|]; [|reflexivity].
+  destruct (new_cols m (eff t m c0) p (cols t)); [|reflexivity].
+  destruct (cty oc); try reflexivity. discriminate.
 Qed.
 
 (* a column that no statement of the sequence drops, modifies or renames keeps its values *)
@@ -290,10 +395,17 @@ Definition touches (o : op) (n : name) : bool :=
 
 Definition column (t : table) (n : name) : list (option val) := map (lookup n) (rows t).
 
+Lemma setnn_in (f : col -> bool) cs n : In n (map cn (map (fun c => if f c then mkc (cn c) (cty c) false else c) cs)) <-> In n (map cn cs).
+Proof. rewrite setnn_names. reflexivity. Qed.
+
 Lemma exec_untouched o t n : inv t -> In n (names t) -> touches o n = false ->
   column (exec o t) n = column t n /\ In n (names (exec o t)).
 Proof.
-  intros Hinv Hn Ht. unfold exec. destruct (alter o t) as [t'|] eqn:Ha; [|auto].
+  intros Hinv Hn Ht. unfold exec. destruct (alter o t) as [t'|] eqn:Ha.
+  2:{ destruct (corrupt_cases o t) as [->|[m [c0 [p [b [old [new [-> ->]]]]]]]]; [auto|].
+      split; [|exact Hn]. unfold column. cbn [rows]. cbn in Ht. apply orb_false_elim in Ht. destruct Ht as [E _].
+      apply N.eqb_neq in E. destruct (corrupt_rows_spec m b old new (rows t)) as [_ HF].
+      induction HF as [|r r' l l' [_ Hk] HF IH]; [reflexivity|]. cbn. rewrite IH. rewrite (Hk n E). reflexivity. }
   assert (Hr : retained o n = Some n).
   { destruct o; cbn in *; try reflexivity.
     - rewrite Ht. reflexivity.
@@ -304,24 +416,25 @@ Proof.
     rewrite H1, H2. f_equal.
     destruct o; cbn in H3; try congruence.
     apply orb_false_elim in Ht. destruct Ht as [E _]. rewrite E in H3. congruence.
-  - pose proof (alter_preserves_inv o t t' Hinv Ha) as Hi'. unfold inv in Hi'.
-    (* membership of n among the new names, by cases *)
-    destruct o as [c fill p|d|m c' p|a b|tn'|]; cbn in Ha, Ht.
+  - destruct o as [c fill p|d|m c0 p|a b|tn'| |ks|]; cbn [alter touches] in Ha, Ht.
     + destruct (has (cn c) (cols t)); [discriminate|]. destruct (conv c fill); [|discriminate].
       destruct (insert_col p c (cols t)) as [cs|] eqn:Hi; [|discriminate]. injection Ha as <-. unfold names. cbn [cols].
       apply (insert_col_names p c (cols t) cs n Hi). right. exact Hn.
-    + destruct (has d (cols t) && _); [|discriminate]. injection Ha as <-. unfold names. cbn [cols].
+    + case_if Ha. injection Ha as <-. unfold names. cbn [cols].
       apply remove_col_names. split; [exact Hn|]. apply N.eqb_neq. exact Ht.
-    + apply orb_false_elim in Ht. destruct Ht as [E1 E2]. apply N.eqb_neq in E1.
-      destruct (has m (cols t) && _); [|discriminate]. destruct (mapM (modify_row m c') (rows t)); [|discriminate].
-      destruct p; try (injection Ha as <-; unfold names; cbn [cols]; apply replace_col_names; left; split; assumption);
-        destruct (insert_col _ c' (remove_col m (cols t))) as [cs|] eqn:Hi; try discriminate; injection Ha as <-;
-        unfold names; cbn [cols]; apply (insert_col_names _ c' _ cs n Hi); right; apply remove_col_names; split; assumption.
+    + cbv zeta in Ha. apply orb_false_elim in Ht. destruct Ht as [E1 E2]. apply N.eqb_neq in E1.
+      destruct (has m (cols t) && _) eqn:Hc; [|discriminate]. apply andb_prop in Hc. destruct Hc as [Hm _]. apply has_in in Hm.
+      destruct (mapM (modify_row m (eff t m c0)) (rows t)); [|discriminate].
+      destruct (new_cols m (eff t m c0) p (cols t)) as [cs|] eqn:Hnc; [|discriminate]. injection Ha as <-. unfold names. cbn [cols].
+      apply (new_cols_names m _ p (cols t) cs n Hnc Hm). right. split; assumption.
     + apply orb_false_elim in Ht. destruct Ht as [E1 E2]. apply N.eqb_neq in E1.
       destruct (has a (cols t) && negb (has b (cols t))); [|discriminate]. injection Ha as <-. unfold names. cbn [cols].
       apply rename_col_names. left. split; assumption.
     + injection Ha as <-. exact Hn.
     + injection Ha as <-. exact Hn.
+    + destruct (pk t); [|discriminate]. destruct ks; [discriminate|]. case_if Ha.
+      injection Ha as <-. unfold names. cbn [cols]. apply setnn_in. exact Hn.
+    + destruct (pk t); [discriminate|]. injection Ha as <-. exact Hn.
 Qed.
 
 Theorem untouched_column_unchanged os : forall t n,
@@ -335,13 +448,94 @@ Proof.
   rewrite (IH (exec o t) n (exec_preserves_inv o t Hinv) Hn' H2). exact E.
 Qed.
 
-Theorem modify_representable n c' p t t' :
-  inv t -> alter (OModify n c' p) t = Some t' -> In n (names t) ->
-  Forall (fun r => exists v v', lookup n r = Some v /\ conv c' v = Some v') (rows t).
+Theorem modify_representable n c0 p t t' :
+  inv t -> alter (OModify n c0 p) t = Some t' -> In n (names t) ->
+  Forall (fun r => exists v v', lookup n r = Some v /\ conv (eff t n c0) v = Some v') (rows t).
 Proof.
   intros Hi Ha Hn.
-  assert (Hr : retained (OModify n c' p) n = Some (cn c')) by (cbn; rewrite N.eqb_refl; reflexivity).
-  pose proof (alter_preserves_retained (OModify n c' p) t t' n (cn c') Hi Ha Hn Hr) as H.
+  assert (Hr : retained (OModify n c0 p) n = Some (cn c0)) by (cbn; rewrite N.eqb_refl; reflexivity).
+  pose proof (alter_preserves_retained (OModify n c0 p) t t' n (cn c0) Hi Ha Hn Hr) as H.
   induction H as [|r r' l l' [v [v' [H1 [_ H3]]]] _ IH]; constructor; [|exact IH].
   cbn in H3. rewrite N.eqb_refl in H3. exists v, v'. auto.
 Qed.
+
+(* ---- primary keys ---- *)
+Theorem add_pk_spec ks t t' :
+  alter (OAddPK ks) t = Some t' ->
+  rows t' = rows t /\ pk t' = ks /\ pk t = [] /\
+  distinct_keys (map (key_of ks) (rows t)) = true /\
+  forallb (fun r => forallb (fun k => non_null (lookup k r)) ks) (rows t) = true.
+Proof.
+  cbn [alter]. destruct (pk t); [|discriminate]. destruct ks as [|k ks]; [discriminate|].
+  destruct (_ && _ && _ && _) eqn:E; [|discriminate]. intro H. injection H as <-. cbn [rows pk].
+  apply andb_prop in E. destruct E as [E E4]. apply andb_prop in E. destruct E as [_ E3]. auto.
+Qed.
+
+Theorem drop_pk_spec t t' : alter ODropPK t = Some t' -> rows t' = rows t /\ cols t' = cols t /\ pk t' = [].
+Proof. cbn [alter]. destruct (pk t); [discriminate|]. intro H. injection H as <-. auto. Qed.
+
+(* ---- conversions: exact when representable ---- *)
+Lemma pow10_pos n : (0 < pow10 n)%Z.
+Proof. unfold pow10. apply Z.pow_pos_nonneg; lia. Qed.
+
+Theorem conv_int_to_dec_exact c z u s : conv c (VInt z) = Some (VDec u s) -> u = (z * pow10 s)%Z.
+Proof.
+  cbn [conv]. destruct (cty c) as [lo hi|n k|ms|p sc| |]; try discriminate.
+  - destruct ((lo <=? z)%Z && (z <=? hi)%Z); discriminate.
+  - cbv zeta. destruct (fits_dec (z * pow10 sc) p); [|discriminate]. intro H. inversion H; subst. reflexivity.
+Qed.
+
+(* widening the scale keeps the number: u' * 10^-s = u * 10^-s0 *)
+Theorem conv_dec_widen_exact c u s0 u' s :
+  conv c (VDec u s0) = Some (VDec u' s) -> s0 <= s -> (u' * pow10 s0 = u * pow10 s)%Z.
+Proof.
+  cbn [conv]. destruct (cty c) as [lo hi|n k|ms|p sc| |]; try discriminate.
+  - cbv zeta. destruct ((lo <=? rescale u s0 0)%Z && (rescale u s0 0 <=? hi)%Z); discriminate.
+  - cbv zeta. destruct (fits_dec (rescale u s0 sc) p); [|discriminate]. intros H Hs. inversion H; subst. unfold rescale.
+    apply N.leb_le in Hs. rewrite Hs. apply N.leb_le in Hs. unfold pow10.
+    replace (Z.of_N s) with (Z.of_N (s - s0) + Z.of_N s0)%Z by lia.
+    rewrite Z.pow_add_r by lia. ring.
+Qed.
+
+(* narrowing the scale rounds to a nearest value: |u' * 10^(s0-s) - u| * 2 <= 10^(s0-s) *)
+Lemma rdiv_nearest a b : (0 < b)%Z -> (Z.abs (rdiv a b * b - a) * 2 <= b)%Z.
+Proof.
+  intro Hb. unfold rdiv. pose proof (Z.div_mod (2 * Z.abs a + b) (2 * b) ltac:(lia)) as E.
+  pose proof (Z.mod_pos_bound (2 * Z.abs a + b) (2 * b) ltac:(lia)) as B.
+  set (q := ((2 * Z.abs a + b) / (2 * b))%Z) in *. set (r := ((2 * Z.abs a + b) mod (2 * b))%Z) in *.
+  destruct (Z.sgn_spec a) as [[Ha ->]|[[Ha ->]|[Ha ->]]]; nia.
+Qed.
+
+Theorem conv_dec_narrow_nearest c u s0 u' s :
+  conv c (VDec u s0) = Some (VDec u' s) -> s < s0 -> (Z.abs (u' * pow10 (s0 - s) - u) * 2 <= pow10 (s0 - s))%Z.
+Proof.
+  cbn [conv]. destruct (cty c) as [lo hi|n k|ms|p sc| |]; try discriminate.
+  - cbv zeta. destruct ((lo <=? rescale u s0 0)%Z && (rescale u s0 0 <=? hi)%Z); discriminate.
+  - cbv zeta. destruct (fits_dec (rescale u s0 sc) p); [|discriminate]. intros H Hs. inversion H; subst. unfold rescale.
+    assert (E : s0 <=? s = false) by (apply N.leb_gt; exact Hs). rewrite E.
+    apply rdiv_nearest. apply pow10_pos.
+Qed.
+
+(* DATE -> DATETIME keeps the instant; DATETIME -> DATE keeps the day (exactly the value when it is a midnight) *)
+Theorem conv_to_datetime_exact c t v : cty c = TDatetime -> conv c (VTime t) = Some v -> v = VTime t.
+Proof. intros E. cbn. rewrite E. congruence. Qed.
+
+Theorem conv_to_date_day c t v :
+  cty c = TDate -> conv c (VTime t) = Some v ->
+  exists d, v = VTime d /\ (d mod 86400 = 0 /\ d <= t < d + 86400)%Z /\ ((t mod 86400 = 0)%Z -> d = t).
+Proof.
+  intros E. cbn. rewrite E. intro H. injection H as <-. eexists. split; [reflexivity|].
+  pose proof (Z.mod_pos_bound t 86400 ltac:(lia)) as B. pose proof (Z.div_mod t 86400 ltac:(lia)) as D.
+  split; [split|].
+  - replace (t - t mod 86400)%Z with (86400 * (t / 86400))%Z by lia. rewrite Z.mul_comm. apply Z.mod_mul. lia.
+  - lia.
+  - intro H0. lia.
+Qed.
+
+(* a collation change (or any MODIFY to a VARCHAR definition) keeps the bytes of every string *)
+Theorem conv_to_varchar_keeps_bytes c s v n k : cty c = TStr n k -> conv c (VStr s) = Some v -> v = VStr s.
+Proof. intros E. cbn. rewrite E. destruct (_ <=? _); congruence. Qed.
+
+(* an ENUM redefinition keeps the member string *)
+Theorem conv_to_enum_keeps_member c s v ms : cty c = TEnum ms -> conv c (VStr s) = Some v -> v = VStr s /\ existsb (bytes_eqb s) ms = true.
+Proof. intros E. cbn. rewrite E. destruct (existsb _ _); [|discriminate]. intro H. injection H as <-. auto. Qed.
